@@ -6,6 +6,7 @@ CONSTANTS
  NStripes = 3
  KeySets <- EmptyKeySets
  Deviations = {"EmptyKeyUnlatched"}
+ LateReleasers = {}
  MaxHist = 0
  MaxPre = 0
  defaultInitValue = 0
